@@ -19,6 +19,7 @@ import (
 	"github.com/volatiletech/authboss/v3"
 	"golang.org/x/crypto/bcrypt"
 
+	"verif/internal/urlspec"
 	"verif/internal/wire"
 	"verif/internal/world"
 )
@@ -117,52 +118,8 @@ func (m *M) check(b, route string, a Args, pre *snapshot, r *world.Result) {
 	// ---------------- C01: a new session identity needs a licence ----------------------
 	if newU != "" && newU != oldU {
 		U := newU
-		lic := ""
-		if cfg.RememberMW && cfg.Has("remember") && oldU == "" && rememberLicence(pre, U) {
-			lic = "remember"
-		}
+		lic := m.licenceOf(route, a, pre, U)
 		u := pu(U)
-		switch route {
-		case "login":
-			if u != nil && a.PID == U && u.Password != "" && bcrypt.CompareHashAndPassword([]byte(u.Password), []byte(a.PW)) == nil {
-				lic = "password"
-			}
-		case "otplogin":
-			if u != nil && a.PID == U && u.OTPs != "" {
-				for _, h := range strings.Split(u.OTPs, ",") {
-					if h == sha64(a.PW) {
-						lic = "otp"
-					}
-				}
-			}
-		case "register":
-			if u == nil && a.PID == U {
-				lic = "register"
-			}
-		case "recend":
-			if u != nil && cfg.RecoverLogin {
-				if raw, err := base64.URLEncoding.DecodeString(a.Token); err == nil && len(raw) == 64 &&
-					u.RecoverSelector == sha64(string(raw[:32])) && u.RecoverVerifier == sha64(string(raw[32:])) && !pre.now.After(u.RecoverExpiry) {
-					lic = "recover"
-				}
-			}
-		case "oend":
-			// (the identifier format is restated here on purpose, not taken from the library)
-			if d, ok := m.W.OAuth[a.OCode]; ok && a.OErr == "" && a.State != "" && pre.sess["oauth2_state"] == a.State &&
-				U == "oauth2;;"+a.Prov+";;"+d["uid"] {
-				lic = "oauth2"
-			}
-		case "totpvalidate":
-			started := pre.sess["totp_pending"] == U || oldU == U || (lic == "remember")
-			if u != nil && started && ((a.RCode == "" && u.TOTPSecretKey != "" && totp.Validate(a.Code, u.TOTPSecretKey)) || (a.RCode != "" && recCodeValid(u, a.RCode))) {
-				lic = "totp"
-			}
-		case "smsvalidate":
-			started := pre.sess["sms_pending"] == U || oldU == U || (lic == "remember")
-			if u != nil && started && ((a.RCode == "" && a.Code != "" && a.Code == pre.sess["sms_secret"]) || (a.RCode != "" && recCodeValid(u, a.RCode))) {
-				lic = "sms"
-			}
-		}
 		// the identity came from the remember cookie and the interactive flow did not complete
 		// (a completed full login deletes the half-auth mark)
 		if mwAuth0 && U == cookiePID0 && post.Sess["halfauth"] == "true" {
@@ -549,12 +506,13 @@ func (m *M) check(b, route string, a Args, pre *snapshot, r *world.Result) {
 	if route == "prot" && r.Panic == "" && !cfg.ExpireMW { // (with the expiry middleware in front, what the access middleware sees is C09's subject)
 		_, half := pre.sess["halfauth"]
 		_, twofa := pre.sess["twofactor"]
-		reqOK := !(a.Reqs&1 == 1 && half) && !(a.Reqs&2 == 2 && !twofa)
 		pid := oldU
 		if mwAuth0 {
 			pid = cookiePID0
-			// the remember middleware marks the session half-authenticated for *later* requests; this request's view is the loaded one
+			// the remember middleware authenticated this very request: it is half-authenticated from here on
+			half = true
 		}
+		reqOK := !(a.Reqs&1 == 1 && half) && !(a.Reqs&2 == 2 && !twofa)
 		_, known := pre.users[pid]
 		storageErr := r.Injected
 		ran := r.Probe != nil && r.Probe.Ran
@@ -747,6 +705,24 @@ func (m *M) check(b, route string, a Args, pre *snapshot, r *world.Result) {
 		m.checkMailRecipients(r, b)
 	}
 
+	// ---------------- C15: wherever a response sends the browser, it is on this site ----------------
+	if r.Panic == "" && route != "ostart" {
+		loc := r.Location
+		if r.JSON != nil {
+			if l, ok := r.JSON["location"].(string); ok && l != "" {
+				loc = l
+			}
+		}
+		if loc != "" && urlspec.OffSite(loc) {
+			m.violate("C15", "flow:"+route, fmt.Sprintf("a %s response sends the browser to %q", route, loc), b)
+		}
+	}
+
+	// ---------------- C04: every authentication failure is counted ---------------------------------
+	if cfg.Has("lock") && r.Panic == "" && !mwAuth0 && !cfg.ExpireMW { // (an expired session hides the pending login: C09's subject)
+		m.checkFailureCounted(b, route, a, pre)
+	}
+
 	// ---------------- C19: registration ---------------------------------------------------------
 	if route == "register" && cfg.Has("register") && r.Panic == "" {
 		m.checkRegister(b, a, pre, r)
@@ -840,7 +816,13 @@ func (m *M) checkFault(b, route string, a Args, pre *snapshot, r *world.Result, 
 		call = r.Calls[f.At]
 	}
 	if r.Panic != "" {
-		m.violate("C18", "panic:"+route+":"+call, fmt.Sprintf("panic when backend call %d (%s) of a %s request fails (%s): %s", f.At, call, route, f.Kind, strings.SplitN(r.Panic, "\n", 2)[0]), b)
+		site := "panic:" + route + ":" + call
+		if (route == "lockmw" || route == "confirmmw" || route == "rootmw") &&
+			(strings.HasPrefix(r.Panic, "user not found") || strings.HasPrefix(r.Panic, "injected Load failure")) {
+			// lock.Middleware / confirm.Middleware could not load the current user (whatever made the load fail)
+			site = "panic:" + route + ":Load"
+		}
+		m.violate("C18", site, fmt.Sprintf("panic when backend call %d (%s) of a %s request fails (%s): %s", f.At, call, route, f.Kind, strings.SplitN(r.Panic, "\n", 2)[0]), b)
 		return
 	}
 	cookiePID0 := cookiePIDOf(pre)
@@ -869,6 +851,16 @@ func (m *M) checkFault(b, route string, a Args, pre *snapshot, r *world.Result, 
 	if issued && mwAuth0 && newU == cookiePID0 && post.Sess["halfauth"] != "true" && r.Wrote &&
 		!(route == "login" || route == "otplogin" || route == "oend" || route == "totpvalidate" || route == "smsvalidate" || route == "logout") {
 		m.violate("C07", "no-halfauth", fmt.Sprintf("backend call %d (%s) failed, and the remember-cookie login of %q is not marked half-authenticated", f.At, call, newU), b)
+	}
+	// (C01 under faults) a new session identity still needs a valid credential of that user
+	if issued && r.Wrote {
+		lic := m.licenceOf(route, a, pre, newU)
+		if mwAuth0 && newU == cookiePID0 {
+			lic = "remember"
+		}
+		if lic == "" {
+			m.violate("C01", "route:"+route, fmt.Sprintf("backend call %d (%s) failed, and browser %s became logged in as %q by a %s request that proved no valid credential of that user", f.At, call, b, newU, route), b)
+		}
 	}
 	// (C08 under faults) a storage error while loading the user: 500, and the wrapped handler does not run
 	if route == "prot" && call == "Load" && f.Kind == "generic" && !cfg.ExpireMW {
@@ -1068,5 +1060,120 @@ func (m *M) scanLogs(r *world.Result, b string) {
 				m.violate("C17", "log:"+kind, fmt.Sprintf("a log line contains a %s in the clear: %q", kind, line), b)
 			}
 		}
+	}
+}
+
+// licenceOf: which valid credential of U, if any, the request presented (the harness' own
+// ground truth; "" = none).
+func (m *M) licenceOf(route string, a Args, pre *snapshot, U string) string {
+	cfg := m.Cfg
+	oldU := pre.sess["uid"]
+	pu := func(pid string) *world.User { return pre.users[pid] }
+	lic := ""
+	if cfg.RememberMW && cfg.Has("remember") && oldU == "" && rememberLicence(pre, U) {
+		lic = "remember"
+	}
+	u := pu(U)
+	switch route {
+	case "login":
+		if u != nil && a.PID == U && u.Password != "" && bcrypt.CompareHashAndPassword([]byte(u.Password), []byte(a.PW)) == nil {
+		lic = "password"
+		}
+	case "otplogin":
+		if u != nil && a.PID == U && u.OTPs != "" {
+		for _, h := range strings.Split(u.OTPs, ",") {
+			if h == sha64(a.PW) {
+			lic = "otp"
+			}
+		}
+		}
+	case "register":
+		if u == nil && a.PID == U {
+		lic = "register"
+		}
+	case "recend":
+		if u != nil && cfg.RecoverLogin {
+		if raw, err := base64.URLEncoding.DecodeString(a.Token); err == nil && len(raw) == 64 &&
+			u.RecoverSelector == sha64(string(raw[:32])) && u.RecoverVerifier == sha64(string(raw[32:])) && !pre.now.After(u.RecoverExpiry) {
+			lic = "recover"
+		}
+		}
+	case "oend":
+		// (the identifier format is restated here on purpose, not taken from the library)
+		if d, ok := m.W.OAuth[a.OCode]; ok && a.OErr == "" && a.State != "" && pre.sess["oauth2_state"] == a.State &&
+		U == "oauth2;;"+a.Prov+";;"+d["uid"] {
+		lic = "oauth2"
+		}
+	case "totpvalidate":
+		started := pre.sess["totp_pending"] == U || oldU == U || (lic == "remember")
+		if u != nil && started && ((a.RCode == "" && u.TOTPSecretKey != "" && totp.Validate(a.Code, u.TOTPSecretKey)) || (a.RCode != "" && recCodeValid(u, a.RCode))) {
+		lic = "totp"
+		}
+	case "smsvalidate":
+		started := pre.sess["sms_pending"] == U || oldU == U || (lic == "remember")
+		if u != nil && started && ((a.RCode == "" && a.Code != "" && a.Code == pre.sess["sms_secret"]) || (a.RCode != "" && recCodeValid(u, a.RCode))) {
+		lic = "sms"
+		}
+	}
+	return lic
+}
+
+// checkFailureCounted (C04): a failed authentication attempt on any path (password, one-time
+// password, TOTP code, SMS code, recovery code) against an existing account moves that account's
+// counter exactly as the property says: to 1 after a pause longer than the window, else +1.
+func (m *M) checkFailureCounted(b, route string, a Args, pre *snapshot) {
+	cfg := m.Cfg
+	oldU := pre.sess["uid"]
+	var who string
+	failed := false
+	switch route {
+	case "login":
+		who = a.PID
+		if u := pre.users[who]; u != nil && cfg.Has("auth") {
+			failed = u.Password == "" || bcrypt.CompareHashAndPassword([]byte(u.Password), []byte(a.PW)) != nil
+		}
+	case "otplogin":
+		who = a.PID
+		if u := pre.users[who]; u != nil && cfg.Has("otp") {
+			failed = !strings.Contains(","+u.OTPs+",", ","+sha64(a.PW)+",") || u.OTPs == ""
+		}
+	case "totpvalidate":
+		who = oldU
+		if who == "" {
+			who = pre.sess["totp_pending"]
+		}
+		if u := pre.users[who]; u != nil && u.TOTPSecretKey != "" && cfg.Has("totp") {
+			if a.RCode != "" {
+				failed = !recCodeValid(u, a.RCode)
+			} else {
+				failed = !totp.Validate(a.Code, u.TOTPSecretKey) || (cfg.OneTime && u.TOTPLastCode == a.Code)
+			}
+		}
+	case "smsvalidate":
+		who = oldU
+		if who == "" {
+			who = pre.sess["sms_pending"]
+		}
+		if u := pre.users[who]; u != nil && cfg.Has("sms") {
+			if a.RCode != "" {
+				failed = !recCodeValid(u, a.RCode)
+			} else if a.Code != "" && pre.sess["sms_secret"] != "" {
+				failed = a.Code != pre.sess["sms_secret"]
+			}
+		}
+	}
+	if !failed {
+		return
+	}
+	u0, u1 := pre.users[who], m.W.Store.Users[who]
+	if u0 == nil || u1 == nil {
+		return
+	}
+	want := u0.AttemptCount + 1
+	if pre.now.Sub(u0.LastAttempt) > cfg.LockWindow {
+		want = 1
+	}
+	if u1.AttemptCount != want {
+		m.violate("C04", "failure-not-counted:"+route, fmt.Sprintf("a failed %s attempt against %q left the failure count at %d (was %d, expected %d)", route, who, u1.AttemptCount, u0.AttemptCount, want), b)
 	}
 }
